@@ -57,6 +57,8 @@ impl BackendInternal {
             hdr.set_need_reply(true);
         }
         self.sock.send_message(&hdr, body, fds)?;
+        #[cfg(feature = "verif-hooks")]
+        crate::verif::hit("be.sent", &[u32::from(request) as u64]);
 
         self.wait_for_ack(&hdr)
     }
@@ -67,6 +69,8 @@ impl BackendInternal {
             return Ok(0);
         }
 
+        #[cfg(feature = "verif-hooks")]
+        crate::verif::hit("be.before_recv", &[0]);
         let (reply, body, rfds) = self.sock.recv_body::<VhostUserU64>()?;
         if !reply.is_reply_for(hdr) || rfds.is_some() || !body.is_valid() {
             return Err(Error::InvalidMessage);
